@@ -15,5 +15,6 @@ CONSTANTS
   Modes = {"entity", "cdata"}
   W <- WChar16
   RootKinds = {"inst", "class", "ipath", "cpath", "prop", "pval", "qual", "qdecl", "meth", "parm"}
+  EmbPaths = FALSE
 INVARIANT ImplMeetsReq
 CHECK_DEADLOCK FALSE
